@@ -53,6 +53,10 @@ def jobs(tier, seed):
         for dt in (('int32', 'uint8') if tier == 'quick' else ('int32', 'uint8', 'int64', 'float32')):
             for (cy, cx) in _grids(3, 4, tier, seed + 11, 3 if tier == 'quick' else 8):
                 out.append({'name': '%s-3x4-%s-%s-%s' % (op, dt, 'x'.join(map(str, cy)), 'x'.join(map(str, cx))), 'op': op, 'shape': [3, 4], 'chunks': [list(cy), list(cx)], 'dtype': dt})
+    # float64 rasters under the float32 store model: both backends must cast (or not cast) the surface alike
+    for op in ('curvature', 'slope'):
+        for (cy, cx) in _grids(3, 3, tier, seed + 19, 2 if tier == 'quick' else 6):
+            out.append({'name': '%s-3x3-f32model-%s-%s' % (op, 'x'.join(map(str, cy)), 'x'.join(map(str, cx))), 'op': op, 'shape': [3, 3], 'chunks': [list(cy), list(cx)], 'f32': True})
     # focal mean with an explicit excludes list that does not contain NaN (the NaN halo then takes part in the window like on the raster edge)
     for op in ('mean1e', 'mean2e'):
         for (cy, cx) in _grids(3, 4, tier, seed + 17, 4 if tier == 'quick' else 16):
@@ -86,7 +90,7 @@ def body(ctx, job):
     op = job['op']
     h, w = job['shape']
     chunks = job['chunks']
-    sc.set_axioms(congruence='full' if op == 'true_color' else 'syntactic', sqrt_zero=(op != 'hotspots'))
+    sc.set_axioms(congruence='full' if op == 'true_color' else 'syntactic', sqrt_zero=(op != 'hotspots'), f32_store_round=bool(job.get('f32')))
     ys = coords_affine(h, 10.0 + h, -1.0)
     xs = coords_affine(w, 3.0, 2.0)
     attrs = {'res': (2.0, 1.0)}
